@@ -1,7 +1,7 @@
 (* C03 - Conversion always tiles the whole buffer, one output character per symbol.
    Property theorems only (proofs: Proofs/ConversionProofs.v). *)
 From Coq Require Import NArith List Bool Arith Lia.
-From LC Require Import Base.Lib Model.Composition Model.Conversion Proofs.CompositionProofs Proofs.ConversionProofs Proofs.GraphPath.
+From LC Require Import Base.Lib Model.Composition Model.Conversion Proofs.CompositionProofs Proofs.ConversionProofs Proofs.GraphPath Proofs.SimpleEngineProofs.
 Import ListNotations.
 Open Scope nat_scope.
 
@@ -83,9 +83,40 @@ Theorem C03_path_missing_pinned_refuted : forall p,
 Proof. exact no_path_pinned. Qed.
 Print Assumptions C03_path_missing_pinned_refuted.
 
-(* Remaining clause, tied by the correspondence only:
-   - C03_simple_engine_partial: SimpleEngine::convert is modelled exactly (Conversion.simple_convert,
-     compared for equality on every logged conversion) but its tiling is not proved. *)
+(* ---- SimpleEngine::convert (modelled exactly; compared for equality on every logged conversion) ---- *)
+Section SimpleEngine.
+Variable lookup1 : N -> option (list N).      (* dict.lookup_first_phrase(&[syllable]) *)
+Variable spell : N -> list N.
+Variable c : composition.
+Hypothesis Wc : wf_comp c.
+
+(* it tiles the buffer - for every dictionary *)
+Theorem C03_simple_engine_contiguous : contiguous 0 (clen c) (simple_convert lookup1 spell c) = true.
+Proof. exact (simple_convert_contiguous lookup1 spell c Wc). Qed.
+
+(* every interval is a recorded choice, a character as itself, or a syllable by its first word (its
+   spelling when there is none); every recorded choice is shown *)
+Theorem C03_simple_engine_intervals : forall x, In x (simple_convert lookup1 spell c) ->
+  In x (selections c) \/
+  (exists i ch, nth_error (symbols c) i = Some (SymChar ch) /\ x = mkIv i (S i) false [ch]) \/
+  (exists i s, nth_error (symbols c) i = Some (SymSyl s) /\
+               x = mkIv i (S i) true (match lookup1 s with Some t => t | None => spell s end)).
+Proof. exact (simple_convert_members lookup1 spell c). Qed.
+
+Theorem C03_simple_engine_keeps_choices : forall sel, In sel (selections c) -> In sel (simple_convert lookup1 spell c).
+Proof. exact (simple_convert_keeps_choices lookup1 spell c). Qed.
+
+(* the tiling contract (one character per symbol, characters unchanged) under the property's quantifier *)
+Hypothesis lookup1_len : forall s t, lookup1 s = Some t -> length t = 1.
+Hypothesis has_word1 : forall s, In (SymSyl s) (symbols c) -> lookup1 s <> None.
+Hypothesis sel_len : Forall (fun s => length (itext s) = ie s - ib s) (selections c).
+Theorem C03_simple_engine_tiles : tiling_ok c (simple_convert lookup1 spell c) = true.
+Proof. exact (simple_convert_tiling_ok lookup1 spell c Wc lookup1_len has_word1 sel_len). Qed.
+End SimpleEngine.
+Print Assumptions C03_simple_engine_contiguous.
+Print Assumptions C03_simple_engine_intervals.
+Print Assumptions C03_simple_engine_keeps_choices.
+Print Assumptions C03_simple_engine_tiles.
 
 (* non-vacuity: a composition with a break, a selection and a character symbol, a dictionary, a
    path, and its glued tiling *)
